@@ -80,6 +80,17 @@ func (f *Frame) typeByName(n string) types.Type {
 		return t
 	}
 	if p := f.pkg(); p != nil {
+		if i := strings.Index(n, "."); i > 0 {
+			// pkg.Name: a type of a package imported by the one under verification
+			for _, imp := range p.Pkg.Imports() {
+				if imp.Name() == n[:i] {
+					if tn, ok := imp.Scope().Lookup(n[i+1:]).(*types.TypeName); ok {
+						return tn.Type()
+					}
+				}
+			}
+			return nil
+		}
 		if o := p.Pkg.Scope().Lookup(n); o != nil {
 			if tn, ok := o.(*types.TypeName); ok {
 				return tn.Type()
@@ -878,6 +889,33 @@ func (f *Frame) evalCall(e *spec.Call, st, old *State) TV {
 		a := f.eval(e.Args[0], st, old)
 		_, off, _, _ := sliceParts(a.V)
 		return TV{off, types.Typ[types.Int]}
+	case "dyn":
+		// dyn(e, T): the interface value e holds a value of dynamic type T (dyn(e, nil): e is the nil interface)
+		if len(e.Args) != 2 {
+			specErr("dyn(e, T)")
+		}
+		a := f.eval(e.Args[0], st, old)
+		iv, ok := a.V.(*Struct)
+		if _, isIface := a.T.Underlying().(*types.Interface); !isIface || !ok {
+			specErr("dyn: %s is not an interface value", e.Args[0])
+		}
+		tn := strings.ReplaceAll(e.Args[1].String(), " ", "")
+		if tn == "nil" {
+			return TV{B.Eq(iv.Fields[0].(*smt.Term), B.IntC(0)), types.Typ[types.Bool]}
+		}
+		t := f.typeByName(tn)
+		if t == nil {
+			specErr("dyn: unknown type %s", tn)
+		}
+		return TV{B.Eq(iv.Fields[0].(*smt.Term), x.typeID(t)), types.Typ[types.Bool]}
+	case "dynptr":
+		// dynptr(e): the data word of the interface value e (the pointer itself when e holds a pointer)
+		a := f.eval(e.Args[0], st, old)
+		iv, ok := a.V.(*Struct)
+		if _, isIface := a.T.Underlying().(*types.Interface); !isIface || !ok {
+			specErr("dynptr: %s is not an interface value", e.Args[0])
+		}
+		return TV{x.scalar(iv.Fields[1], nil), types.Typ[types.UnsafePointer]}
 	case "allocated":
 		// allocated(p): the reference p denotes an object that exists in the current state
 		a := f.eval(e.Args[0], st, old)
